@@ -142,6 +142,15 @@ def mk_node(cx, cls, name, **fields):
     if cls is Junction:
         base.update(_elevation=0.0, _required_pressure=None, _minimum_pressure=None, _pressure_exponent=None)
     base.update(fields)
+    if getattr(cls, "__name__", "") == "Tank" and getattr(cx, "mode", "symbolic") == "symbolic":
+        # the other attributes Tank.__init__ sets: arbitrary values of their own (code that starts to read one of them runs symbolically and fails
+        # its postcondition if the value matters, instead of stopping at a field the stub does not carry)
+        tag = str(name.t) if hasattr(name, "t") else str(name)
+        for a in ("_elevation", "_min_level", "_max_level", "_init_level", "_min_vol", "_diameter"):
+            if a not in base:
+                base[a] = cx.path.fresh("tank%s_%s" % (a, tag), "real")
+        if "_overflow" not in base:
+            base["_overflow"] = cx.path.fresh("tank_overflow_%s" % tag, "bool")
     return cx.obj(cls, **base)
 
 
